@@ -1,7 +1,7 @@
 SPECIFICATION Spec
 CONSTANTS Kinds = {"lr", "glr", "lrrec", "glrrec", "lrld0"}
   FailKinds = {"conflict"}
-  Inputs = {"ok", "bad", "act", "rec", "kw"}
+  Inputs = {"ok", "bad", "act", "rec", "kw", "rec2", "rec3"}
   MaxSteps = 3
 INVARIANT AugRestored
 INVARIANT Emit
